@@ -42,6 +42,7 @@ pub static ALL: &[(&str, RunFn, ReplayFn)] = &[
     ("C13", c13::run, c13::replay),
     ("C14", c14::run, c14::replay),
     ("C15", c15::run, c15::replay),
+    ("C16", c16::run, c16::replay),
     ("C17", c17::run, c17::replay),
     ("C18", c18::run, c18::replay),
     ("C19", c19::run, c19::replay),
